@@ -30,5 +30,10 @@ mk(B,'b38_getrange_wrap_order','C05',RB,'''            res.extend_from_slice(&le
             res.extend_from_slice(&left_part_of_queue[start..]);''','ring-wrap re-assembly in the wrong order: right length, wrong bytes')
 mk(B,'b39_getrange_excl_start','C05',RB,'            Bound::Excluded(pos) => pos + 1,\n            Bound::Unbounded => 0,','            Bound::Excluded(pos) => *pos,\n            Bound::Unbounded => 0,','excluded start bound treated as included')
 mk(G,'g10_getrange_gt','-',RB,'} else if start >= left_part_of_queue.len() {','} else if start > left_part_of_queue.len() {','start == left.len() handled by the re-assembly branch instead (same bytes)')
+MQ='src/mem/queue.rs'
+mk(B,'b40_range_excl_no_skip','C05',MQ,'.map(|idx| idx + 1)','.map(|idx| idx)','excluded start bound does not skip the record at that position')
+mk(B,'b41_range_payload_end','C05',MQ,'let payload = if let Some(next_record_meta) = self.record_metas.get(idx + 1) {\n                    let end_offset','let payload = if let Some(next_record_meta) = self.record_metas.get(idx + 2) {\n                    let end_offset','range: payload runs to the start of the record after the next one')
+mk(B,'b42_range_stop_early','C05',MQ,'(start_idx..self.record_metas.len())','(start_idx..self.record_metas.len().saturating_sub(1))','range never delivers the last retained record')
+mk(G,'g11_range_pred_local','-',MQ,'.take_while(move |idx| range.contains(&self.record_metas[*idx].position))','.take_while(move |idx| { let position = self.record_metas[*idx].position; range.contains(&position) })','range predicate through a local')
 shutil.rmtree(W, ignore_errors=True)
 subprocess.run(['git','-C','/repo','worktree','prune'],check=True)
